@@ -160,6 +160,32 @@ theorem step_call_free (cfg : Cfg) (hl : cfg.unregLock = false) (env : Env) (s :
     step cfg env s (.call .unregister p) = freeRun env s p := by
   simp [step, hl]
 
+theorem step_down_busy (cfg : Cfg) (env : Env) (s : St) (h : s.queue ≠ []) :
+    step cfg env s .down = (s, [.unmodelled]) := by
+  cases hq : s.queue with
+  | nil => exact absurd hq h
+  | cons a t => simp [step, hq]
+
+theorem step_down_idle (cfg : Cfg) (env : Env) (s : St) (hq : s.queue = []) (hi : s.inflight = none) :
+    step cfg env s .down = ({ s with autoTodo := [] }, []) := by
+  simp [step, hq, hi]
+
+theorem step_down_some (cfg : Cfg) (env : Env) (s : St) (r : Req) (hq : s.queue = []) (hi : s.inflight = some r) :
+    step cfg env s .down =
+      ({ s with inflight := none, autoTodo := [] }, [.ret r (replyRes cfg r .canceled)]) := by
+  simp [step, hq, hi, replyRes]
+
+theorem step_down_cases (cfg : Cfg) (env : Env) (s : St) :
+    (s.queue ≠ [] ∧ step cfg env s .down = (s, [.unmodelled])) ∨
+    (s.queue = [] ∧ s.inflight = none ∧ step cfg env s .down = ({ s with autoTodo := [] }, [])) ∨
+    (∃ r, s.queue = [] ∧ s.inflight = some r ∧ step cfg env s .down =
+      ({ s with inflight := none, autoTodo := [] }, [.ret r (replyRes cfg r .canceled)])) := by
+  by_cases hq : s.queue = []
+  · rcases Option.eq_none_or_eq_some s.inflight with hi | ⟨r, hi⟩
+    · exact Or.inr (Or.inl ⟨hq, hi, step_down_idle cfg env s hq hi⟩)
+    · exact Or.inr (Or.inr ⟨r, hq, hi, step_down_some cfg env s r hq hi⟩)
+  · exact Or.inl ⟨hq, step_down_busy cfg env s hq⟩
+
 theorem step_replyU_nil (cfg : Cfg) (env : Env) (s : St) (i : Nat) (k : Reply) (h : s.free = []) :
     step cfg env s (.replyU i k) = (s, []) := by
   simp [step, h]
@@ -220,6 +246,8 @@ theorem step_locked (cfg : Cfg) (env : Env) (s : St) (e : Ev) (h : Locked cfg s)
     | none => rw [step_reply_none cfg env s k hi]; exact hf
     | some r => rw [step_reply_some cfg env s k r hi]; simp only [autoNext_free, handOver_free]; exact hf
   | replyU i k => rw [step_replyU_nil cfg env s i k hf]; exact hf
+  | down =>
+    rcases step_down_cases cfg env s with ⟨_, he⟩ | ⟨_, _, he⟩ | ⟨r, _, _, he⟩ <;> rw [he] <;> exact hf
   | connect routes =>
     cases ha : autoActive s with
     | true => rw [step_connect_active cfg env s routes ha]; exact hf
@@ -286,6 +314,12 @@ theorem step_disc (cfg : Cfg) (env : Env) (s : St) (e : Ev) (h : WF s) (hk : Loc
   cases e with
   | call v p => rw [step_call cfg hk.1]; exact submit_disc cfg env s v p false h
   | replyU i k => rw [step_replyU_nil cfg env s i k hk.2]; exact Disc.refl' _ _ h rfl rfl rfl
+  | down =>
+    rcases step_down_cases cfg env s with ⟨_, he⟩ | ⟨_, _, he⟩ | ⟨r, hq, hi, he⟩
+    · rw [he]; exact Disc.cons_marker _ (Or.inr rfl) (Disc.refl' _ _ h rfl rfl rfl)
+    · rw [he]; exact Disc.refl' _ _ h rfl rfl rfl
+    · rw [he]
+      refine ⟨by simp [alt, hi], fun _ => hq, by simp [countCmd]⟩
   | reply k =>
     cases hi : s.inflight with
     | none => rw [step_reply_none cfg env s k hi]; exact Disc.refl' _ _ h rfl rfl rfl
@@ -461,6 +495,11 @@ theorem step_trel (cfg : Cfg) (env : Env) (hok : ClockOk cfg env) (s : St) (e : 
   cases e with
   | call v p => rw [step_call cfg hk.1]; exact submit_trel cfg env hok s v p false h
   | replyU i k => rw [step_replyU_nil cfg env s i k hk.2]; exact TRel.refl' _ _ h rfl rfl
+  | down =>
+    rcases step_down_cases cfg env s with ⟨_, he⟩ | ⟨_, _, he⟩ | ⟨r, _, _, he⟩
+    · rw [he]; exact TRel.cons_other _ (by intro r ts hc; cases hc) (TRel.refl' _ _ h rfl rfl)
+    · rw [he]; exact TRel.refl' _ _ h rfl rfl
+    · rw [he]; exact TRel.cons_other _ (by intro r ts hc; cases hc) (TRel.refl' _ _ h rfl rfl)
   | reply k =>
     cases hi : s.inflight with
     | none => rw [step_reply_none cfg env s k hi]; exact TRel.refl' _ _ h rfl rfl
@@ -538,6 +577,14 @@ theorem step_retsOk (cfg : Cfg) (hb : cfg.bodyFix = true) (hd : cfg.decodeFix = 
     split
     · intro r res h; simp [freeRun] at h
     · exact submit_retsOk _ _ _ _ _ _
+  | down =>
+    rcases step_down_cases cfg env s with ⟨_, he⟩ | ⟨_, _, he⟩ | ⟨r, _, _, he⟩
+    · rw [he]; intro r res h; simp at h
+    · rw [he]; exact RetsOk.nil
+    · rw [he]
+      intro r' res h
+      simp only [List.mem_cons, List.not_mem_nil, or_false] at h
+      cases h; exact finish_ok cfg hb hd _ _
   | replyU i k =>
     simp only [step]
     split
@@ -634,11 +681,11 @@ theorem autoNext_rrel (cfg : Cfg) (env : Env) (s : St) (r : Req) (res : Except P
   · obtain ⟨b, hb⟩ := hres
     rw [hb] at hr; cases hr
 
-/-- no further connection is established during `evs` -/
-def NoConnect (evs : List Ev) : Prop := ∀ e ∈ evs, ∀ rs, e ≠ .connect rs
+/-- no further connection is established, and the connection is not lost, during `evs` -/
+def NoConnect (evs : List Ev) : Prop := ∀ e ∈ evs, e ≠ .down ∧ ∀ rs, e ≠ .connect rs
 
 theorem step_rrel (cfg : Cfg) (hb : cfg.bodyFix = true) (hd : cfg.decodeFix = true) (env : Env) (s : St)
-    (e : Ev) (hne : ∀ rs, e ≠ .connect rs) (h : WF s) (hk : Locked cfg s) :
+    (e : Ev) (hne : e ≠ .down ∧ ∀ rs, e ≠ .connect rs) (h : WF s) (hk : Locked cfg s) :
     RRel s (step cfg env s e).1 (step cfg env s e).2 := by
   cases e with
   | call v p =>
@@ -660,7 +707,8 @@ theorem step_rrel (cfg : Cfg) (hb : cfg.bodyFix = true) (hd : cfg.decodeFix = tr
       refine ⟨?_, hab.wf⟩
       rw [← hs]
       simpa [autoCmds] using hab.cons
-  | connect rs => exact absurd rfl (hne rs)
+  | connect rs => exact absurd rfl (hne.2 rs)
+  | down => exact absurd rfl hne.1
 
 theorem run_rrel (cfg : Cfg) (hb : cfg.bodyFix = true) (hd : cfg.decodeFix = true) (env : Env) (s : St)
     (evs : List Ev) (hne : NoConnect evs) (h : WF s) (hk : Locked cfg s) :
